@@ -30,6 +30,9 @@ CLAIMS = {
  'C13': dict(engine='netmc', ref='DESIGN.md §2, §5 C13',
    text='Every request path "/"+t1..tn, n <= L (L=4 over 11 tokens quick; L=6 over 9 tokens thorough) over {a, b.txt, /, ., .., %2e%2e, %2f, ?x, ?../, root-evil, secret.txt} plus hand-written traversal spellings, with compression on and off, is requested from the real static server over a real directory tree holding sentinel files inside and just outside the root (incl. a prefix sibling directory). 200 is allowed only for a path that stays inside the root and only with exactly that file (after gunzip); any other origin-form path must get an h11-valid 404; no response may contain an outside sentinel; plain existing inside files must be served.',
    note=NETMC_NOTE + ' d=0 (input enumeration). Percent-encodings are not decoded by the server, so they name literal files.', technique='bounded-exhaustive input enumeration (all token sequences up to length L) on the real event loop against file-system ground truth'),
+ 'C14': dict(engine='netmc', ref='DESIGN.md §3, §5 C14',
+   text='Request-targets from a bounded URI grammar (11 hosts: registered names incl. punycode, UTF-8 and upper case, IPv4, IPv6 in four spellings; 6 ports; userinfo absent / user:pass / user / user: ; 6 paths incl. reserved characters) in absolute and authority form, plus origin-form paths and 17 damaged targets. Part A runs every target through the real HttpParser/Url and compares host, port and path with urllib.parse.urlsplit (defaults 80 / 443 for CONNECT). Part B sends each target through the real forward proxy: exactly one outbound connection to the un-bracketed host and that port (literal => direct connect with the right address family and no name resolution; name => one resolution of exactly that name), origin request line carries the origin-form path; damaged targets must not reach anybody.',
+   note=NETMC_NOTE + ' d=0 (input enumeration).', technique='exhaustive enumeration of a bounded URI grammar on the real parser and the real event loop, urlsplit as reference'),
  'C10': dict(engine='netmc', ref='DESIGN.md §2, §5 C10', category='model_checking',
    text='For every history of the C05 corpus (all roles, every abort kind, connect failures, protocol errors) once and three times in a row, for idle-timeout histories under the virtual clock, and for every single injected I/O error / postponed peer action on top, the state at quiescence (executor still running, after gc.collect()) is inspected: /proc/self/fd minus harness descriptors equals the snapshot before the first connection, and works / registered events / unfinished tasks / selector map are back to empty.',
    note=NETMC_NOTE + ' A socket closed only by the cyclic GC counts as released.', technique='stateless model checking of the implementation with fault enumeration and a kernel-object census at quiescence'),
